@@ -227,3 +227,21 @@ package twig
 //@ applyfile safety compiled.go
 //@ applyfile safety whitespace.go
 //@ applyfile safety utility.go
+
+// ---------------------------------------------------------------- history independence (C01)
+//@ list render_entries (*Engine).Render (*Engine).RenderTo (*Template).Render (*Template).RenderTo DebugRender
+//@ list parse_entries (*Parser).Parse (*Engine).Load (*Engine).RegisterString (*Engine).ParseTemplate (*Engine).RegisterTemplate
+// pool invariant: a pooled FunctionNode has no module expression (GetFunctionNode does not assign
+// it; ReleaseFunctionNode and the pool's New establish it)
+//@ list poolinv FunctionNodePool moduleExpr
+// package-level state on the render/parse path, each with the reason it cannot make a result
+// depend on history:
+//   object pools (contents arbitrary on Get by the pool model; constructors re-initialise):
+//@ list global_allow BinaryNodePool FunctionNodePool GetAttrNodePool GetItemNodePool LiteralNodePool PrintNodePool RootNodePool
+//@ list global_allow TextNodePool UnaryNodePool VariableNodePool TokenSlicePool blocksMapPool contextMapPool macrosMapPool
+//@ list global_allow renderContextPool stringBufferPool tokenizerPool globalBufferPool
+//   error sentinels (never reassigned):
+//@ list global_allow ErrTemplateNotFound ErrUndefinedVar
+//   caches whose contents are functions of their keys (attribute cache: C20; interned strings are
+//   equal to their keys) and the debug logger (writes to a log, never into rendered output):
+//@ list global_allow attributeCache globalCache debugger
